@@ -388,7 +388,7 @@ def run(c):
                 lines.append(json.dumps({"e": "missing-%s-side" % ("typed" if t is None else "runtime"), "case": list(key)}))
                 continue
             m = dict(r); m["k"] = "equiv"; m["seed"] = c.seed + 1000 * so
-            for f in ("threw", "exc", "it", "res_lo", "res_hi", "x_lo", "x_hi", "px_lo", "px_hi"):
+            for f in ("threw", "exc", "it", "res_lo", "res_hi", "x_lo", "x_hi", "px_lo", "px_hi", "bytes", "txt_lo", "txt_hi"):
                 m[f] = t[f]
             lines.append(json.dumps(m))
     lines.append('{"e":"End"}')
